@@ -113,6 +113,10 @@ impl VariableByteInteger {
             if (b & 0x80) == 0 {
                 // complete
                 return match Self::from_u32(value) {
+                    Some(vbi) if vbi.size() != i + 1 => {
+                        // [MQTT-1.5.5-1]: the encoded value must use the minimum number of bytes
+                        DecodeResult::Err("Malformed VariableByteInteger: not minimal")
+                    }
                     Some(vbi) => DecodeResult::Ok(vbi, i + 1),
                     None => DecodeResult::Err("Encoding failure"),
                 };
